@@ -1496,7 +1496,10 @@ impl Linearizer {
         rhs: Exp,
         name: String,
     ) -> Result<(), LinearizationError> {
+        // constants are folded before products are distributed: a chain of
+        // constant sums would otherwise double the expression per factor
         let exp = Exp::BinOp(BinOp::Sub, lhs.to_box(), rhs.to_box())
+            .simplify()
             .flatten()
             .simplify();
         let requirement = match comparison {
@@ -1559,7 +1562,7 @@ impl Linearizer {
         bounds.restrict_to_domain(&domain);
         let mut context = Linearizer::new_from_with_bounds(constraints, domain, bounds);
         let objective_type = objective.objective_type.clone();
-        let objective_exp = objective.rhs.flatten().simplify();
+        let objective_exp = objective.rhs.simplify().flatten().simplify();
         let objective_requirement = match &objective_type {
             OptimizationType::Min => ValueRequirement::PreferLower,
             OptimizationType::Max => ValueRequirement::PreferHigher,
@@ -1569,8 +1572,8 @@ impl Linearizer {
         while let Some(constraint) = context.pop_constraint() {
             let is_logic_assertion = constraint.is_logic_assertion();
             let (lhs, op, rhs, name) = constraint.into_parts();
-            let lhs = lhs.flatten().simplify();
-            let rhs = rhs.flatten().simplify();
+            let lhs = lhs.simplify().flatten().simplify();
+            let rhs = rhs.simplify().flatten().simplify();
             if is_logic_assertion {
                 lower_logic_assertion(&lhs, true, &name, &mut context)?;
                 continue;
